@@ -185,6 +185,16 @@ BIND = collections.OrderedDict([
     ('from-backslash', 'from mod import xnm, \\\n    nm'),
     ('from-relative', 'from . import nm'),
     ('from-relative-as', 'from ..nm import nm2 as nm'),
+    ('import-as-two-spaces', 'import os  as  nm'), ('import-as-tab', 'import os as\tnm'), ('import-as-backslash', 'import os as \\\n    nm'),
+    ('from-as-aligned', 'from mod import (xnm      as a,\n                 longername as nm)'), ('from-as-newline', 'from mod import (other as\n    nm)'),
+    ('from-then-comment', 'from mod import nm# nm is needed'), ('import-then-backslash', 'import xnm, nm\\\n  , nmx'),
+    ('import-comment-in-list', 'from mod import (  # nm first\n    xnm,\n    nm,  # nm\n)'),
+    ('def-tab', 'def\tnm(): pass'), ('class-tab', 'class\tnm: pass'), ('def-backslash', 'def \\\n    nm(): pass'), ('class-two-spaces', 'class  nm  (object)  : pass'),
+    ('async-def-short-name', 'async def d(): pass\nd'), ('async-def-prefix-name', 'async def de(): pass\nde'), ('class-prefix-name', '@nmdeco\nclass cl: pass\ncl'),
+    ('def-type-params', 'def nm[T](a: T) -> T: return a'), ('class-type-params', 'class nm[T]: pass'),
+    ('lambda-star', 'r = lambda *nm, **nmx: nm'), ('kwonly', 'def f(*, nmx, nm=1): return nm'), ('posonly', 'def f(nm, /, nmx): return nm'),
+    ('except-group', 'try: pass\nexcept* ValueError as nm: pass'), ('with-paren', 'with (open("a") as nmx, open("b") as nm): pass'),
+    ('walrus-in-comp', 'r = [nm for q in [1] if (nm := q)]'), ('match-capture', 'match nm2:\n    case [nm, *xnm]: pass\n    case {"k": nmx}: pass'),
     ('global-assign', 'def g():\n    global nm\n    nm = 1'),
 ])
 
